@@ -12,6 +12,7 @@ import RbV.Lemmas.FastqPrefixUtf8
 import RbV.Lemmas.PlainText
 import RbV.Thm.GenSrcFasta
 import RbV.Thm.GenSrcFastq
+import RbV.Thm.GenSrcFastx
 /-!
 # C11 — FASTA/FASTQ round trip is lossless and layout independent; truncated FASTQ is prefix safe
 
@@ -649,6 +650,77 @@ theorem fastq_prefix_checked_mem_source (c : Nat) (sched : Nat → Nat) (hc : 1 
     · simp at hx; subst hx; exact List.mem_of_getElem? hx'
     · simp at hx; subst hx; rw [hx'] at hchk; cases hchk
 
+/-! ### The sniffer (`src/io/fastx.rs`, `RbV/Gen/SrcFastx.lean`) -/
+
+open RbV.Thm.GenSrcFastx (readExactOp chainOp sniffRes toKind eofErr illegalStart) in
+/-- **sniffer, source text**: the translated `get_kind` (through the translated `get_kind_detailed`) on a source holding
+`file` answers what the model `sniff` answers on the first byte — `UnexpectedEof` on empty input, `InvalidData` for any other
+start character — and the reader it hands back (`Cursor::new([first]).chain(reader)`) delivers exactly `file` again. -/
+theorem fastx_sniff_source_eq_model (file : Bytes) :
+    Gen.SrcFastx.getKind readExactOp chainOp file =
+      Res.ok (match file with
+        | [] => .error eofErr
+        | b :: _ => match sniff file with
+          | some k => .ok (file, toKind k)
+          | none => .error (illegalStart b)) := by
+  rw [GenSrcFastx.getKind_eq_model]
+  cases file with
+  | nil => simp [sniffRes]
+  | cons b r => cases h : sniff (b :: r) <;> simp [sniffRes, h]
+
+open RbV.Thm.GenSrcFastx (readExactAt seekCurOp sniffRes) in
+/-- **`get_kind_seek`, source text**: the same verdict, and the position of the source is unchanged (`read_exact` of one byte,
+`seek(Current(-1))`) -/
+theorem fastx_sniff_seek_source_eq_model (b : Nat) (r : Bytes) :
+    Gen.SrcFastx.getKindSeek readExactAt seekCurOp (b :: r, 0) = Res.ok (sniffRes (b :: r), (b :: r, 0)) :=
+  GenSrcFastx.getKindSeek_eq_model b r
+
+open RbV.Thm.GenSrcFastx (readExactOp chainOp) in
+/-- **sniffer + FASTA reader, source text to source text**: on the translated writer's output for a non-empty list of valid
+text records the translated `get_kind` answers FASTA and hands back a reader over the same bytes; the translated `Records`
+iterator on a `BufReader` over that `Chain` (read schedule `chainSched sched`: the peeked byte first) yields the records. -/
+theorem fastx_sniff_fasta_source (c : Nat) (sched : Nat → Nat) (hc : 1 ≤ c) (hs : Admissible sched)
+    (wrap : Option Nat) (recs : List FaRec) (hne : recs ≠ []) (hv : ∀ r ∈ recs, ValidFa r) (ht : ∀ r ∈ recs, TextFa r)
+    (hw : ∀ w, wrap = some w → 1 ≤ w) (fuel n : Nat)
+    (hf : (writeFasta wrap recs).length < fuel) (hn : (writeFasta wrap recs).length + 2 ≤ n) :
+    ∃ file, recs.foldlM (srcWriteFasta wrap) [] = Res.ok file ∧
+      Gen.SrcFastx.getKind readExactOp chainOp file = Res.ok (.ok (file, Gen.SrcFastx.Kind.FASTA)) ∧
+      Rs.drain (GenSrcFasta.srcNext c (chainSched sched) fuel) n (init file, [], false) =
+        Res.ok (recs.map fun r => .ok (GenSrcFasta.toRec r)) := by
+  obtain ⟨file, h1, h2⟩ := fasta_roundtrip_source c (chainSched sched) hc (chainSched_admissible sched hs) wrap recs hv ht hw
+    fuel n hf hn
+  have hfile : file = writeFasta wrap recs := by
+    have := srcWriteFasta_all wrap hw recs []
+    rw [h1] at this
+    simpa using this
+  refine ⟨file, h1, ?_, h2⟩
+  rw [fastx_sniff_source_eq_model, hfile]
+  cases recs with
+  | nil => exact absurd rfl hne
+  | cons r rs => simp [writeFasta, writeFastaRec, faHeaderBytes, sniff, GenSrcFastx.toKind]
+
+open RbV.Thm.GenSrcFastx (readExactOp chainOp) in
+/-- **sniffer + FASTQ reader, source text to source text** -/
+theorem fastx_sniff_fastq_source (c : Nat) (sched : Nat → Nat) (hc : 1 ≤ c) (hs : Admissible sched)
+    (recs : List FqRec) (hne : recs ≠ []) (hv : ∀ r ∈ recs, ValidFq r) (ht : ∀ r ∈ recs, TextFq r) (lb : Bytes)
+    (fuel n : Nat) (hf : (writeFastq recs).length < fuel) (h31 : (writeFastq recs).length < 2 ^ 31)
+    (hn : (writeFastq recs).length + 1 ≤ n) :
+    ∃ file, recs.foldlM srcWriteFastq [] = Res.ok file ∧
+      Gen.SrcFastx.getKind readExactOp chainOp file = Res.ok (.ok (file, Gen.SrcFastx.Kind.FASTQ)) ∧
+      Rs.drain (GenSrcFastq.srcNext c (chainSched sched) fuel) n (init file, lb) =
+        Res.ok (recs.map fun r => .ok (GenSrcFastq.toRec r)) := by
+  obtain ⟨file, h1, h2⟩ := fastq_roundtrip_source c (chainSched sched) hc (chainSched_admissible sched hs) recs hv ht lb
+    fuel n hf h31 hn
+  have hfile : file = writeFastq recs := by
+    have := srcWriteFastq_all recs []
+    rw [h1] at this
+    simpa using this
+  refine ⟨file, h1, ?_, h2⟩
+  rw [fastx_sniff_source_eq_model, hfile]
+  cases recs with
+  | nil => exact absurd rfl hne
+  | cons r rs => simp [writeFastq, writeFastqRec, sniff, GenSrcFastx.toKind]
+
 end Source
 
 /-! ## Non-vacuity -/
@@ -744,5 +816,22 @@ example : ∃ k tail, Rs.drain (GenSrcFastq.srcNext 2 (cyclic [1, 3]) 100) 100 (
      ∃ r', tail = [.ok r'] ∧ r'.check = false) :=
   fastq_prefix_safe_source 2 _ (by decide) (cyclic_admissible _) exFqTab (by decide) (by decide) 22 [] 100 100
     (by decide) (by decide) (by decide)
+
+
+open RbV.Rs RbV.BufLines in
+/-- sniffing the translated writer's FASTQ output and reading the chained reader with the translated iterator -/
+example : ∃ file, exFq.foldlM srcWriteFastq [] = Res.ok file ∧
+    Gen.SrcFastx.getKind GenSrcFastx.readExactOp GenSrcFastx.chainOp file = Res.ok (.ok (file, Gen.SrcFastx.Kind.FASTQ)) ∧
+    Rs.drain (GenSrcFastq.srcNext 4 (chainSched (cyclic [3, 1])) 100) 100 (init file, []) =
+      Res.ok (exFq.map fun r => .ok (GenSrcFastq.toRec r)) :=
+  fastx_sniff_fastq_source 4 _ (by decide) (cyclic_admissible _) exFq (by decide) exFq_valid (by decide) [] 100 100
+    (by decide) (by decide) (by decide)
+
+/-- an illegal start character and the empty input -/
+example : Gen.SrcFastx.getKind GenSrcFastx.readExactOp GenSrcFastx.chainOp [65, 10] =
+    RbV.Rs.Res.ok (.error (GenSrcFastx.illegalStart 65)) := fastx_sniff_source_eq_model _
+
+example : Gen.SrcFastx.getKind GenSrcFastx.readExactOp GenSrcFastx.chainOp [] =
+    RbV.Rs.Res.ok (.error GenSrcFastx.eofErr) := fastx_sniff_source_eq_model _
 
 end RbV.Thm.C11
